@@ -357,16 +357,18 @@ class _FPCoreCompileInstance(Visitor):
     def _visit_range1(self, stop: Expr, ctx: None) -> fpc.Expr:
         # range(stop) => (tensor ([i <stop>]) i)
         tuple_id = str(self.gensym.fresh('i'))
-        size = self._visit_expr(stop, ctx)
+        # an empty range (`range(-2)`) has no elements, not a negative count
+        size = fpc.Ctx(_int_props(), fpc.Fmax(fpc.Integer(0), self._visit_expr(stop, ctx)))
         return fpc.Tensor([(tuple_id, size)], fpc.Var(tuple_id))
 
     def _visit_range2(self, start: Expr, stop: Expr, ctx: None) -> fpc.Expr:
-        # range(start, stop) => (tensor ([i (! :precision integer (- stop start))]) (! :precision integer (+ i start)))
+        # range(start, stop) => (tensor ([i (! :precision integer (fmax 0 (- stop start)))]) (! :precision integer (+ i start)))
+        # (flipped bounds give an empty range, not a negative count)
         tuple_id = str(self.gensym.fresh('i'))
         start_expr = self._visit_expr(start, ctx)
         stop_expr = self._visit_expr(stop, ctx)
         return fpc.Tensor(
-            [(tuple_id, fpc.Ctx(_int_props(), fpc.Sub(stop_expr, start_expr)))],
+            [(tuple_id, fpc.Ctx(_int_props(), fpc.Fmax(fpc.Integer(0), fpc.Sub(stop_expr, start_expr))))],
             fpc.Ctx(_int_props(), fpc.Add(fpc.Var(tuple_id), start_expr))
         )
 
@@ -385,7 +387,7 @@ class _FPCoreCompileInstance(Visitor):
             fpc.Div(fpc.Sub(stop_expr, start_expr), step_expr),
         )
         return fpc.Tensor(
-            [(tuple_id, fpc.Ctx(_int_props(), fpc.Ceil(quotient)))],
+            [(tuple_id, fpc.Ctx(_int_props(), fpc.Fmax(fpc.Integer(0), fpc.Ceil(quotient))))],
             fpc.Ctx(_int_props(),
                 fpc.Add(fpc.Mul(fpc.Var(tuple_id), step_expr), start_expr))
         )
